@@ -64,3 +64,4 @@ MANIFEST_ENTRY = dict(
     text='23 units, one per 4-lane kernel (canonicalise, add/sub variants, 128/72-bit products, both reductions, mult, mult_8, square, loads/stores, register aliasing), each proved for all four lanes over all register contents under the documented operand assumption; no bound.',
     note='Trusted: intrinsic semantics table (guarded natively on the AVX2 hardware), 32x32 product abstracted as an uninterpreted function in the recombination units, alignment not modelled, CBMC/cadical.')
 NATIVE_FLAGS = ['-mavx2']
+NATIVE_SOURCES = ['props/C02/wrappers.cpp']
